@@ -303,6 +303,193 @@ pub fn t_hunk_body<const L: usize>() {
     }
 }
 
+// ------------------------------------------------------------------------------------------
+// C01 lemma 2 / 4: header dialects -> (kind, names, rename flag, hunk count) on concrete templates,
+// end to end through parse_patch (wiring of parse_filepatch, parse_hunks, build_filepatch, strip).
+// kind: 0 modify, 1 create, 2 delete.  Names are compared as bytes; b"" = None.
+// ------------------------------------------------------------------------------------------
+pub fn t_dialect(text: &[u8], strip: usize, kind: u8, old_name: &[u8], new_name: &[u8], is_rename: bool, nhunks: usize, nfiles: usize) {
+    use std::os::unix::ffi::OsStrExt;
+    let p = match parse_patch(text, strip, false) { Ok(p) => p, Err(e) => { std::mem::forget(e); assert!(false, "an accepted header style was rejected"); return; } };
+    assert!(p.file_patches.len() == nfiles, "number of file patches");
+    let fp = &p.file_patches[0];
+    let k = match fp.kind() { FilePatchKind::Modify => 0u8, FilePatchKind::Create => 1, FilePatchKind::Delete => 2 };
+    assert!(k == kind, "file patch kind");
+    assert!(fp.is_rename() == is_rename, "rename flag");
+    assert!(fp.hunks().len() == nhunks, "number of hunks");
+    match fp.old_filename() {
+        Some(n) => { assert!(n.as_os_str().as_bytes() == old_name, "old name"); }
+        None => { assert!(old_name.is_empty(), "old name must be absent (/dev/null)"); }
+    }
+    match fp.new_filename() {
+        Some(n) => { assert!(n.as_os_str().as_bytes() == new_name, "new name"); }
+        None => { assert!(new_name.is_empty(), "new name must be absent (/dev/null)"); }
+    }
+    kani::cover!(true, "dialect parsed");
+    std::mem::forget(p);
+}
+
+/// parse_filename: bytes in = bytes out (unquoted: up to the first white-space; quoted without
+/// escapes: between the quotes); "/dev/null" is DevNull in both spellings.
+pub fn t_filename_value<const L: usize>(quoted: bool) {
+    use std::os::unix::ffi::OsStrExt;
+    let name: [u8; L] = kani::any();
+    let mut i = 0;
+    while i < L {
+        kani::assume(!is_whitespace(name[i]) && name[i] != b'"' && name[i] != b'\\');
+        i += 1;
+    }
+    let mut buf = [b'\n'; 16];
+    let mut p = 0;
+    if quoted { buf[p] = b'"'; p += 1; }
+    i = 0;
+    while i < L { buf[p] = name[i]; p += 1; i += 1; }
+    if quoted { buf[p] = b'"'; p += 1; }
+    buf[p] = b'\t'; p += 1;
+    let input = &buf[..p + 1];
+    match parse_filename(input) {
+        Ok((rest, Filename::Real(path))) => {
+            assert!(path.as_os_str().as_bytes() == &name[..], "file name bytes changed");
+            assert!(rest.len() == 2 && rest[0] == b'\t');
+        }
+        Ok((_, Filename::DevNull)) => { assert!(false, "not /dev/null"); }
+        Err(e) => { std::mem::forget(e); assert!(false, "a plain file name was rejected"); }
+    }
+}
+
+// ------------------------------------------------------------------------------------------
+// C12: write-then-parse.  (i) hunk header arithmetic, (ii) hunk body with symbolic bytes from a
+// 4-letter alphabet, (iii) file header per kind / rename / modes / hashes (concrete).
+// ------------------------------------------------------------------------------------------
+use crate::patch::unified::writer::{UnifiedPatchHunkHeaderWriter, UnifiedPatchHunkWriter, UnifiedPatchWriter};
+
+/// Fixed-size sink: keeps `Vec<u8>` growth out of the formula.
+pub struct Sink<const N: usize> { pub b: [u8; N], pub n: usize }
+impl<const N: usize> Sink<N> { pub fn new() -> Self { Sink { b: [0; N], n: 0 } } pub fn bytes(&self) -> &[u8] { &self.b[..self.n] } }
+impl<const N: usize> std::io::Write for Sink<N> {
+    fn write(&mut self, d: &[u8]) -> std::io::Result<usize> {
+        let mut i = 0;
+        while i < d.len() { assert!(self.n < N, "verif-infra: Sink capacity"); self.b[self.n] = d[i]; self.n += 1; i += 1; }
+        Ok(d.len())
+    }
+    fn flush(&mut self) -> std::io::Result<()> { Ok(()) }
+}
+
+fn alpha(x: u8) -> u8 { match x & 3 { 0 => b'a', 1 => b'b', 2 => b'c', _ => b'\\' } }
+
+/// (i) header: start lines and side lengths from the matrix (lines are concrete dummies)
+pub fn t_write_header(old_start: isize, new_start: isize, nold: usize, nnew: usize) {
+    let l = b"x\n";
+    let mut h: TextHunk = Hunk::new(old_start, new_start, &b""[..]);
+    let mut i = 0;
+    while i < nold { h.remove.content.push(&l[..]); i += 1; }
+    i = 0;
+    while i < nnew { h.add.content.push(&l[..]); i += 1; }
+    let mut out = Sink::<48>::new();
+    h.write_header_to(&mut out).unwrap();
+    std::io::Write::write(&mut out, b"\n").unwrap();
+    let (rest, hh) = match parse_hunk_header(out.bytes()) { Ok(x) => x, Err(e) => { std::mem::forget(e); assert!(false, "written hunk header is rejected"); return; } };
+    assert!(rest.is_empty());
+    assert!(hh.remove_count == nold && hh.add_count == nnew, "counts changed");
+    // what parse_hunk makes of these numbers must be the start lines we started from
+    let back_old = if nold == 0 { hh.remove_line as isize } else { hh.remove_line as isize - 1 };
+    let back_new = if nnew == 0 { hh.add_line as isize } else { hh.add_line as isize - 1 };
+    assert!(back_old == old_start, "old-side start line is not preserved by the written header");
+    assert!(back_new == new_start, "new-side start line is not preserved by the written header");
+    std::mem::forget(h);
+}
+
+/// (ii) body: K lines described by ops (' ', '-', '+'), symbolic bytes from a 4-letter alphabet; a line
+/// without terminator where the flags say so.  write -> parse -> same sequences and start lines; write again -> same bytes.
+pub fn t_write_body<const K: usize>(ops: [u8; K], old_start: isize, new_start: isize, no_nl_old_last: bool, no_nl_new_last: bool) {
+    let raw: [u8; K] = kani::any();
+    let mut lines = [[0u8; 2]; K];
+    let mut i = 0;
+    while i < K { lines[i] = [alpha(raw[i]), b'\n']; i += 1; }
+    let (mut last_old, mut last_new) = (K, K);
+    i = 0;
+    while i < K { if ops[i] != b'+' { last_old = i; } if ops[i] != b'-' { last_new = i; } i += 1; }
+    let mut h: TextHunk = Hunk::new(old_start, new_start, &b""[..]);
+    i = 0;
+    while i < K {
+        if ops[i] != b'+' { let n = if no_nl_old_last && i == last_old { 1 } else { 2 }; h.remove.content.push(&lines[i][..n]); }
+        if ops[i] != b'-' { let n = if no_nl_new_last && i == last_new { 1 } else { 2 }; h.add.content.push(&lines[i][..n]); }
+        i += 1;
+    }
+    let mut pre = 0; while pre < K && ops[pre] == b' ' { pre += 1; }
+    let mut suf = 0; while suf < K - pre && ops[K - 1 - suf] == b' ' { suf += 1; }
+    h.prefix_context = pre; h.suffix_context = if pre == K { 0 } else { suf };
+    let mut out = Sink::<160>::new();
+    h.write_to(&mut out).unwrap();
+    let (rest, g) = match parse_hunk(out.bytes()) { Ok(x) => x, Err(e) => { std::mem::forget(e); assert!(false, "written hunk is rejected by the parser"); return; } };
+    assert!(rest.is_empty(), "written hunk not consumed");
+    assert!(g.remove.content.len() == h.remove.content.len() && g.add.content.len() == h.add.content.len(), "side lengths changed");
+    i = 0;
+    while i < h.remove.content.len() { assert!(g.remove.content[i] == h.remove.content[i], "old-side line changed"); i += 1; }
+    i = 0;
+    while i < h.add.content.len() { assert!(g.add.content[i] == h.add.content[i], "new-side line changed"); i += 1; }
+    assert!(g.remove.target_line == h.remove.target_line && g.add.target_line == h.add.target_line, "start lines changed");
+    let mut out2 = Sink::<160>::new();
+    g.write_to(&mut out2).unwrap();
+    assert!(out2.n == out.n, "writing is not a fixed point (length)");
+    i = 0;
+    while i < out.n { assert!(out2.b[i] == out.b[i], "writing is not a fixed point"); i += 1; }
+    kani::cover!(true, "round trip done");
+    std::mem::forget(h); std::mem::forget(g);
+}
+
+/// (iii) file header: parse a concrete patch, write it, parse the written form: same kind, names, rename flag,
+/// modes, hashes, hunk count; writing again reproduces the written form.
+pub fn t_write_file(text: &[u8]) {
+    let p = match parse_patch(text, 0, false) { Ok(p) => p, Err(e) => { std::mem::forget(e); assert!(false, "verif-infra: template rejected"); return; } };
+    assert!(p.file_patches.len() == 1);
+    let mut out = Sink::<400>::new();
+    p.file_patches[0].write_to(&mut out).unwrap();
+    let q = match parse_patch(out.bytes(), 0, false) { Ok(q) => q, Err(e) => { std::mem::forget(e); assert!(false, "written patch is rejected by the parser"); return; } };
+    assert!(q.file_patches.len() == 1, "written patch describes a different number of file patches");
+    let (a, b) = (&p.file_patches[0], &q.file_patches[0]);
+    assert!(a.kind() == b.kind(), "kind changed");
+    assert!(a.is_rename() == b.is_rename(), "rename flag changed");
+    assert!(a.old_filename().map(|x| x.as_ref()) == b.old_filename().map(|x| x.as_ref()), "old name changed");
+    assert!(a.new_filename().map(|x| x.as_ref()) == b.new_filename().map(|x| x.as_ref()), "new name changed");
+    assert!(a.old_permissions() == b.old_permissions(), "old mode changed");
+    assert!(a.new_permissions() == b.new_permissions(), "new mode changed");
+    assert!(a.old_hash() == b.old_hash() && a.new_hash() == b.new_hash(), "hashes changed");
+    assert!(a.hunks().len() == b.hunks().len(), "hunk count changed");
+    let mut out2 = Sink::<400>::new();
+    b.write_to(&mut out2).unwrap();
+    assert!(out2.bytes() == out.bytes(), "writing is not a fixed point");
+    kani::cover!(true, "file round trip done");
+    std::mem::forget(p); std::mem::forget(q);
+}
+
+/// C19 wiring: parse_patch refuses a file patch whose name could leave the tree / keeps accepting safe ones.
+pub fn t_refused(text: &[u8], strip: usize) {
+    match parse_patch(text, strip, false) {
+        Ok(p) => { std::mem::forget(p); assert!(false, "a file patch with a name that leaves the working tree was accepted"); }
+        Err(e) => { kani::cover!(true, "refused"); std::mem::forget(e); }
+    }
+}
+pub fn t_accepted_safe(text: &[u8], strip: usize) {
+    use std::path::Component;
+    match parse_patch(text, strip, false) {
+        Ok(p) => {
+            assert!(p.file_patches.len() == 1);
+            let fp = &p.file_patches[0];
+            for n in fp.old_filename().iter().chain(fp.new_filename().iter()) {
+                for c in n.components() { assert!(c != Component::ParentDir && c != Component::RootDir); }
+            }
+            std::mem::forget(p);
+        }
+        Err(e) => { std::mem::forget(e); assert!(false, "a name made safe by stripping was refused"); }
+    }
+}
+
+/// Door for harness modules outside the parser: the private hunk-sequence parser.
+pub fn verif_parse_hunks(input: &[u8]) -> Option<(usize, HunksVec<&[u8]>)> {
+    match parse_hunks(input) { Ok((rest, h)) => Some((rest.len(), h)), Err(e) => { std::mem::forget(e); None } }
+}
+
 pub fn t_twin() {
     let b: [u8; 4] = kani::any();
     if let Ok((rest, _)) = parse_number_usize(&b[..]) { assert!(rest.len() == 4, "twin: reachable"); }
